@@ -54,7 +54,7 @@ CHECKS['C15'] = dict(
                   dict(tu='c15_conv2d_extend', group='extend_rgb8', bounds=dict(NE=7, E=4), shards=4),
                   dict(tu='c15_conv2d_extend', group='extend_gray32f', bounds=dict(NE=7, E=4), shards=2)]),
     witnesses_required=dict(all=_c15_opts + [
-        'in_place_calls', 'destination_sub_view', 'correlate_rows', 'convolve_rows', 'correlate_cols', 'convolve_cols', 'fixed_kernel', 'dynamic_kernel',
+        'in_place_calls', 'destination_sub_view', 'source_window_of_larger_canvas', 'correlate_rows', 'convolve_rows', 'correlate_cols', 'convolve_cols', 'fixed_kernel', 'dynamic_kernel',
         'border_outputs_checked', 'edge_replication_used', 'padding_read', 'image_narrower_than_kernel', 'empty_image',
         'size1_scalar_path', 'asymmetric_centre', 'integer_accumulator', 'float_accumulator', 'tolerance_compared',
         'exactly_compared', 'convolve_2d', 'conv2d_window_leaves_image', 'conv2d_off_centre', 'conv2d_empty_image',
